@@ -60,6 +60,9 @@ def bitfield_verdict(case):
     if not base_ok(case):
         return REJECT, ["unsupported-base"]
     probs = []
+    if case.get("debug") and any(f["array"] is not None or "r" not in f["access"] for f in case["fields"]):
+        # C19's statement: `debug` applies to bitfields whose fields are all readable and not arrays; "others do not compile with debug" (documented behaviour, never judged)
+        return UNSPEC, ["debug-with-array-or-unreadable-field"]
     for f in case["fields"]:
         if f["array"] is not None and f["array"]["stride"] == 0 and len(f["ranges"]) > 1:
             # the statement constrains the stride of contiguous elements only (stride >= width)
